@@ -15,7 +15,7 @@ use serde_json::{json, Value};
 
 const STREAM: u64 = 10;
 
-const CLASSES: [&str; 34] = [
+const CLASSES: [&str; 36] = [
     "honest",
     "kb-removed",
     "jwt-char",
@@ -50,6 +50,8 @@ const CLASSES: [&str; 34] = [
     "jwt-extra-segment",
     "part-edge-char",
     "kb-claim-type-confusion",
+    "resigned-header-typ",
+    "resigned-header-extra",
 ];
 
 pub fn run(ctx: &Ctx) -> Report {
@@ -181,6 +183,40 @@ fn one_case(ctx: &Ctx, case: u64, l: &mut Local) {
             return;
         }
     };
+    // ---- holder equivalence on the PRESENTATION (with or without KB-JWT): a second holder built from
+    // either form of it narrows to the same disclosures
+    {
+        let other = fmt0.other();
+        if let Some(trans) = honest.encode(other, r.next()) {
+            let sel2 = crate::gen::narrow_selection(&mut r, &sel);
+            let run = |f: Fmt, text: &str| -> Outcome<Vec<String>> {
+                match api::holder_new(text, f) {
+                    Outcome::Ok(mut h) => api::present(&mut h, &sel2, None).map(|p| {
+                        let mut d = Parts::parse(f, &p).map(|x| x.disclosures).unwrap_or_default();
+                        d.sort();
+                        d
+                    }),
+                    o => o.map(|_| vec![]),
+                }
+            };
+            let a = run(fmt0, &pres);
+            let b = run(other, &trans);
+            l.evals += 1;
+            if a == b && a.is_ok() {
+                l.count("holder.same-selection-from-presentation");
+            } else if a.class() == b.class() && !a.is_ok() {
+                l.count("holder.same-failure-from-presentation");
+            } else {
+                l.violate(Violation {
+                    subcheck: "holder-selection-differs-between-formats".into(),
+                    class: format!("holder built from a presentation {}->{} (kb={})", fmt0.name(), other.name(), honest.kb.is_some()),
+                    observed: format!("{} vs {}", a.class(), b.class()),
+                    case,
+                    detail: json!({"credential": desc, "narrowed_selection": sel2, "history": api::history()}),
+                });
+            }
+        }
+    }
     let (aud, nonce) = kb.as_ref().map(|k| (k.aud.clone(), k.nonce.clone())).unwrap_or(("aud-x".into(), "nonce-x".into()));
     let resolver = Resolver::Fixed(cfg.alg, 0);
     let alpha = alphabet69();
@@ -342,6 +378,28 @@ fn one_case(ctx: &Ctx, case: u64, l: &mut Local) {
                 }
                 t.kb = Some(api::sign_kb(halg, 0, &p, Some("kb+jwt")));
             }
+            "resigned-header-typ" | "resigned-header-extra" => {
+                // validly re-signed with another protected header (typ values of neighbouring token
+                // kinds, replicated claims, crit / cty / kid): both forms carry the same header
+                if let Ok(pl) = t.payload() {
+                    let mut hdr = json!({"alg": cfg.alg.name()});
+                    if class == "resigned-header-typ" {
+                        hdr["typ"] = json!(*r.pick(&["kb+jwt", "at+jwt", "", "JWT", "jwt", "sd+jwt", "vc+sd-jwt", "dc+sd-jwt", "application/sd+jwt", "x", "SD+JWT", "jose", "jose+json"]));
+                    } else {
+                        match r.below(5) {
+                            0 => hdr["cty"] = json!("JWT"),
+                            1 => hdr["kid"] = json!("a.b~c"),
+                            2 => hdr["iss"] = json!("https://issuer.example/B"),
+                            3 => hdr["b64"] = json!(true),
+                            _ => hdr["x5t"] = json!("AAAA"),
+                        }
+                    }
+                    t.jwt = api::sign_raw(&hdr, &pl, cfg.alg.jwt(), &crate::keys::issuer_enc(cfg.alg, 0));
+                    if t.kb.is_some() {
+                        t.kb = Some(api::sign_kb(halg, 0, &kb_payload(&t), Some("kb+jwt")));
+                    }
+                }
+            }
             "kb-on-unbound" => t.kb = Some(api::sign_kb(halg, 0, &kb_payload(&t), Some("kb+jwt"))),
             "kb-garbage" => t.kb = Some((*r.pick(&["a.b.c", "null", "e30.e30.AAAA", "x"])).to_string()),
             "kb-is-a-disclosure" => {
@@ -385,6 +443,22 @@ fn one_case(ctx: &Ctx, case: u64, l: &mut Local) {
                 Some(j) => j,
                 None => continue,
             };
+            let mut j = j;
+            if class == "honest" && r.chance(50) {
+                // a withheld disclosure placed in a JWS-family / unknown member of the JSON form is
+                // not part of the triple: the compact form (which cannot carry it) decides
+                if let (Some(extra), Ok(Value::Object(mut doc))) = (issued.parts.disclosures.iter().find(|d| !t.disclosures.contains(d)), serde_json::from_str::<Value>(&j)) {
+                    let (mname, mval) = match r.below(4) {
+                        0 => ("header", json!({"disclosures": [extra]})),
+                        1 => ("unprotected", json!({"disclosures": [extra]})),
+                        2 => ("more_disclosures", json!([extra])),
+                        _ => ("header", json!({"disclosures": [extra], "kb_jwt": t.kb})),
+                    };
+                    doc.insert(mname.to_string(), mval);
+                    j = Value::Object(doc).to_string();
+                    l.count("json.withheld-disclosure-in-unknown-member");
+                }
+            }
             let pair = if kbreq { Some((aud.as_str(), nonce.as_str())) } else { None };
             let a = api::verify(&c, &res, pair, Fmt::Compact).out;
             let b = api::verify(&j, &res, pair, Fmt::Json).out;
